@@ -57,6 +57,9 @@ func main() {
 		}
 		gen(nil)
 		lists = append(lists, []int{-1}) // scrypt alone
+		// an ssh-rsa key whose modulus is 2049 bits long (257-byte ciphertexts), alone, and next to other types
+		alpha = append(alpha, rcp{"R2049", keys.RSAOdd().Rcpt, keys.RSAOdd()})
+		lists = append(lists, []int{6}, []int{0, 6}, []int{6, 3}, []int{4, 6, 2})
 
 		smallSizes := []int{0, 1, 15}
 		bigSizes := []int{C - 1, C, C + 1, 2*C - 1, 2 * C, 2*C + 1, 3 * C}
